@@ -257,7 +257,13 @@ func (c *OneCRL) Check(cert *x509.Certificate) *Entry {
 	// check for BlockedSPKIs first
 	for _, blocked := range c.Blocked {
 		if bytes.Equal(blocked.RawSubject, cert.RawSubject) {
-			pubKeyData, _ := x509.MarshalPKIXPublicKey(cert.PublicKey)
+			// OneCRL lists the hash of the certificate's SubjectPublicKeyInfo
+			// as encoded; re-marshalling the parsed key yields other bytes
+			// for a non-canonical SPKI (and nothing for unsupported keys).
+			pubKeyData := cert.RawSubjectPublicKeyInfo
+			if len(pubKeyData) == 0 {
+				pubKeyData, _ = x509.MarshalPKIXPublicKey(cert.PublicKey)
+			}
 			hash := sha256.Sum256(pubKeyData)
 			if bytes.Equal(blocked.PubKeyHash, hash[:]) {
 				return &Entry{
